@@ -65,15 +65,16 @@ def run(ctx):
             if dropping and rng.random() < 0.75:
                 rw |= 256                    # ambient launcher: makes a lost capset visible
             x = rng.randrange(8) if (s & 1) else 0      # credential sites: how groups are asked for x gid-map setting
-            pairs.add((x * 512 + s) * 512 + rw)
+            y = rng.randrange(9) if (rw & 8) else 7     # UTS rows: host name x domain name request (7 = short, long)
+            pairs.add(((y * 8 + x) * 512 + s) * 512 + rw)
     for _ in range(ctx.pick(24, 100)):
-        pairs.add((rng.randrange(8) * 512 + rng.randrange(512)) * 512 + rng.randrange(512))
+        pairs.add(((rng.randrange(9) * 8 + rng.randrange(8)) * 512 + rng.randrange(512)) * 512 + rng.randrange(512))
     g, _, _ = lc.par(lambda: ctx.tlc("Launch_Gen", cfg="CONSTANTS\n  C04Pairs = {%s}\n  C07Bases = {}\nINIT Init\nNEXT Next\n" % ",".join(map(str, sorted(pairs))),
                                       timeout=600, count=False),
                      lambda: ctx.build_vdrive("launch"), lambda: lc.build_probe(ctx))     # build while TLC generates
     ctx.tlc_ok("Launch_Gen", g)
     cases = ctx.read_ndjson(os.path.join(g.dir, "c04cases.ndjson"))
-    cases.sort(key=lambda c: (c["s"], c["r"], c["xd"]))
+    cases.sort(key=lambda c: (c["s"], c["r"], c["xd"], c["yd"]))
     for i, c in enumerate(cases):
         c["id"] = i + 1
     ctx.log("generated %d cases (%d site combinations)" % (len(cases), len({c["s"] for c in cases})))
@@ -110,7 +111,7 @@ def run(ctx):
         if o is None or not o["started"]:
             continue
         p = parsed[cid]
-        traces.append({"id": cid, "opt": o["opt"], "req": {"uid": o["req"]["uid"], "gid": o["req"]["gid"]},
+        traces.append({"id": cid, "opt": o["opt"], "req": {"uid": o["req"]["uid"], "gid": o["req"]["gid"], "hostlen": len(o["req"]["host"]), "domlen": len(o["req"]["domain"])},
                        "child": p["child"], "parent": p["parent"]})
     trace_gap = len(traces) < sum(1 for o in sobs if o["started"]) * 0.9
     j, t = lc.par(lambda: ctx.tlc("Launch_Judge", files={"c04obs.ndjson": allobs}, timeout=900, count=False),
